@@ -27,7 +27,63 @@ func (l *lgen) concavePolygon() geom.Polygon {
 	for {
 		n := l.N
 		var pts []geom.XY
-		switch l.r.Intn(3) {
+		switch l.r.Intn(5) {
+		case 3: // comb: three or four teeth on a bar; the row through the middle of the envelope meets every tooth, and
+			// the gaps between the teeth are wider than the teeth (6 or 8 crossings, the widest stretch is outside)
+			if n < 9 {
+				continue
+			}
+			teeth := 3
+			if n >= 13 && l.r.Intn(2) == 0 {
+				teeth = 4
+			}
+			h := float64(3 + l.r.Intn(n-2))
+			x := 0.0
+			pts = []geom.XY{{X: 0, Y: 0}}
+			var top []geom.XY
+			for t := 0; t < teeth; t++ {
+				w := 1.0
+				g := float64(2 + l.r.Intn(2))
+				top = append(top, geom.XY{X: x, Y: h}, geom.XY{X: x + w, Y: h})
+				if t < teeth-1 {
+					top = append(top, geom.XY{X: x + w, Y: 1}, geom.XY{X: x + w + g, Y: 1})
+				}
+				x += w + g
+				if t == teeth-1 {
+					x -= g
+				}
+			}
+			if x > float64(n) {
+				continue
+			}
+			pts = append(pts, geom.XY{X: x, Y: 0})
+			for i := len(top) - 1; i >= 0; i-- {
+				pts = append(pts, top[i])
+			}
+		case 4: // a slab with two or three wide holes side by side on the middle row, thin walls between them
+			if n < 9 {
+				continue
+			}
+			holes := 2
+			if n >= 12 && l.r.Intn(2) == 0 {
+				holes = 3
+			}
+			wv := float64(2 + l.r.Intn(2))
+			width := 1 + float64(holes)*(wv+1)
+			if width > float64(n) {
+				continue
+			}
+			ht := float64(4 + 2*l.r.Intn(2))
+			rings := []geom.LineString{geom.NewLineString(seqOf([]geom.XY{{X: 0, Y: 0}, {X: width, Y: 0}, {X: width, Y: ht}, {X: 0, Y: ht}, {X: 0, Y: 0}}))}
+			for k := 0; k < holes; k++ {
+				x0 := 1 + float64(k)*(wv+1)
+				rings = append(rings, geom.NewLineString(seqOf([]geom.XY{{X: x0, Y: 1}, {X: x0, Y: ht - 1}, {X: x0 + wv, Y: ht - 1}, {X: x0 + wv, Y: 1}, {X: x0, Y: 1}})))
+			}
+			p := geom.NewPolygon(rings)
+			if p.Validate() == nil {
+				return p
+			}
+			continue
 		case 0: // U shape
 			w := 1 + l.r.Intn(maxI(1, n/3))
 			pts = []geom.XY{{X: 0, Y: 0}, {X: float64(n), Y: 0}, {X: float64(n), Y: float64(n)}, {X: float64(n - w), Y: float64(n)},
@@ -96,7 +152,10 @@ func boundaryGen(r *rand.Rand, n int, tier string, emit func(Case)) {
 		}
 		var g geom.Geometry
 		switch r.Intn(8) {
-		case 0:
+		case 0, 2:
+			if r.Intn(2) == 0 {
+				l.N = 9 + r.Intn(8)
+			}
 			g = l.concavePolygon().AsGeometry()
 		case 1:
 			g = l.starLines().AsGeometry()
